@@ -52,6 +52,8 @@ def cases(tier):
         cs.append(dict(name=f"homog_{a}", fn="homog_entry", args=dict(agg=a), weight=6))
     for a in WEIGHTED:
         cs.append(dict(name=f"stateless_{a}", fn="stateless", args=dict(agg=a), weight=4 if a in SPECTRAL else 1))
+    for a in ("config", "constant", "graddrop", "upgrad", "dualproj"):
+        cs.append(dict(name=f"vectors_untouched_{a}", fn="vectors_untouched", args=dict(agg=a), weight=2))
     for a in ("pcgrad", "random", "graddrop"):
         cs.append(dict(name=f"seeded_{a}", fn="seeded", args=dict(agg=a), weight=2))
     return cs
@@ -322,6 +324,40 @@ def case_homog_entry(sp, agg):
     return [Ob(f"positively_homogeneous[{agg}]", eq_all(out2, [t * x for x in out]), cex)]
 
 
+class _FP:
+    """entries of a tensor attribute, compared BY VALUE (a write of the value that was already there is not observable); see _fp_same"""
+
+    def __init__(self, vals):
+        self.vals = vals
+
+
+def _fp_same(a, b):
+    """z3 formula: the two fingerprints describe the same observable state"""
+    if isinstance(a, dict) and isinstance(b, dict):
+        if sorted(a) != sorted(b):
+            return z3.BoolVal(False)
+        return z3.And(*[_fp_same(a[k], b[k]) for k in sorted(a)]) if a else z3.BoolVal(True)
+    if isinstance(a, tuple) and isinstance(b, tuple):
+        if len(a) != len(b):
+            return z3.BoolVal(False)
+        return z3.And(*[_fp_same(x, y) for x, y in zip(a, b)]) if a else z3.BoolVal(True)
+    if isinstance(a, _FP) and isinstance(b, _FP):
+        if len(a.vals) != len(b.vals):
+            return z3.BoolVal(False)
+        parts = []
+        for x, y in zip(a.vals, b.vals):
+            if x is y:
+                continue
+            if isinstance(x, Sp) or isinstance(y, Sp):
+                parts.append(z3.BoolVal(isinstance(x, Sp) and isinstance(y, Sp) and x.k == y.k))
+            elif isinstance(x, (R, int, float, Fraction)) and isinstance(y, (R, int, float, Fraction)):
+                parts.append(lift(x).eqz(y))
+            else:
+                parts.append(z3.BoolVal(x is y or (type(x) is type(y) and not isinstance(x, (R, B)) and x == y)))
+        return z3.And(*parts) if parts else z3.BoolVal(True)
+    return z3.BoolVal(a == b)
+
+
 def _fingerprint(obj, depth=0):
     """observable state of an aggregator object: attribute names -> identity of tensors / value of scalars, recursively through sub-modules"""
     out = {}
@@ -329,7 +365,7 @@ def _fingerprint(obj, depth=0):
         if isinstance(v, torch.nn.Module) and depth < 3:
             out[k] = _fingerprint(v, depth + 1)
         elif isinstance(v, torch.Tensor):
-            out[k] = ("tensor", id(v), id(v._storage), v._storage.writes, tuple(id(x) for x in v._flat()))
+            out[k] = ("tensor", id(v), tuple(v.shape), str(v.dtype), _FP(list(v._flat())))
         elif isinstance(v, (R, B)):
             out[k] = ("sym", id(v))
         elif isinstance(v, (int, float, str, bool, type(None))):
@@ -356,7 +392,7 @@ def _stateless_by_fingerprint(sp, agg):
         J.dtype = torch.float64
     A(J)
     after = _fingerprint(A)
-    obs = [Ob(f"call_leaves_aggregator_state_unchanged[{agg}]", before == after, lambda model: dict(kind="stateless", agg=agg, other_dtype=other_dtype, params=params_cex(model, agg, m)))]
+    obs = [Ob(f"call_leaves_aggregator_state_unchanged[{agg}]", _fp_same(before, after), lambda model: dict(kind="stateless", agg=agg, other_dtype=other_dtype, params=params_cex(model, agg, m)))]
     if other_dtype:
         try:
             out = A(gram_only(G))
@@ -424,6 +460,51 @@ def case_stateless(sp, agg):
     delta = [a - b for a, b in zip(wa, wb)]
     q = rsum(delta[i] * delta[j] * G2[i][j] for i in range(m) for j in range(m))
     return [Ob(f"result_independent_of_earlier_calls[{agg}]", q.eqz(0), cex)]
+
+
+def case_vectors_untouched(sp, agg):
+    """aggregators configured with a vector (preference / weights / leak): a call modifies neither the aggregator's attributes nor the tensor the USER
+    passed at construction (same storage, no write, same entries), whatever the matrix - in particular with an exactly-zero row.  Entry-level runs
+    on concrete rows with rational norms (3,4), (5,12), (-8,6) / a zero row by choice; the configured vector is symbolic."""
+    set_kernels()
+    rows = [[R(3), R(4)], [R(5), R(12)], [R(-8), R(6)], [R(0), R(0)]]
+    m = 2
+    J = [rows[choice(4, "row0")], rows[choice(4, "row1")]]
+    v = [named(f"cfg{i}") for i in range(m)]
+    if agg in ("upgrad", "dualproj", "graddrop"):
+        for x in v:
+            assume(x >= 0)
+    if agg == "graddrop":
+        for x in v:
+            assume(x <= 1)
+    vt = T(v)
+    snap = list(vt._flat())
+    if agg == "config":
+        A = ConFIG(pref_vector=vt)
+    elif agg == "upgrad":
+        A = UPGrad(pref_vector=vt)
+    elif agg == "dualproj":
+        A = DualProj(pref_vector=vt)
+    elif agg == "alignedmtl":
+        A = AlignedMTL(pref_vector=vt)
+    elif agg == "constant":
+        A = Constant(vt)
+    elif agg == "graddrop":
+        A = GradDrop(leak=vt)
+    else:
+        raise KeyError(agg)
+    before = _fingerprint(A)
+    def cex(model):
+        return dict(kind="vectors_untouched", agg=agg, **cex_values(model, J=J, v=v))
+    torch.manual_seed(0)
+    try:
+        A(T(J))
+    except (ValueError, RuntimeError, TypeError) as e:
+        return [Ob(f"call_succeeds[{agg}]", False, lambda model, e=e: dict(cex(model), why=str(e)))]
+    after = _fingerprint(A)
+    now = list(vt._flat())
+    return [Ob(f"call_leaves_aggregator_state_unchanged[{agg}]", _fp_same(before, after), cex),
+            Ob(f"call_leaves_the_configured_vector_untouched[{agg}]", _fp_same(_FP(snap), _FP(now)), cex)]
 
 
 def case_seeded(sp, agg):
